@@ -165,6 +165,7 @@ type BuildInfo struct {
 	PluginLog string   `json:"plugin_log"`
 	Generated string   `json:"generated_file"`
 	Shapes    []string `json:"shapes"`
+	Summarize string   `json:"summarize,omitempty"`
 	KL        int      `json:"kl"`
 	KM        int      `json:"km"`
 }
@@ -216,8 +217,13 @@ func buildProgramWithStructs(p *Program, pluginBin, out string, kl, km int, stru
 	writeFile(gen, []byte(resp.File[0].GetContent()))
 	sup, err := ioutil.ReadFile(filepath.Join(verifRoot, "corpus/support/time_duration.go.txt"))
 	must(err)
-	writeFile(filepath.Join(out, pkg, "support_time.go"), []byte(strings.Replace(string(sup), "package PKG", "package "+pkg, 1)))
-	if p.Support != "" {
+	if p.RepoSupport {
+		p00Support(filepath.Join(out, pkg))
+	} else {
+		writeFile(filepath.Join(out, pkg, "support_time.go"), []byte(strings.Replace(string(sup), "package PKG", "package "+pkg, 1)))
+	}
+	if p.RepoSupport {
+	} else if p.Support != "" {
 		writeFile(filepath.Join(out, pkg, "support_extra.go"), []byte("package "+pkg+"\n"+supportImports+supportExtra+p.Support))
 	} else {
 		writeFile(filepath.Join(out, pkg, "support_extra.go"), []byte("package "+pkg+"\n"+supportImports+supportExtra))
@@ -225,7 +231,7 @@ func buildProgramWithStructs(p *Program, pluginBin, out string, kl, km int, stru
 	writeFile(filepath.Join(out, "cmd/replay/main.go"), []byte(strings.ReplaceAll(replayMain, "PKG", pkg)))
 
 	m := NewModel(file, cfg)
-	g := &Gen{m: m, KL: kl, KM: km, done: map[string]bool{}}
+	g := &Gen{m: m, KL: kl, KM: km, done: map[string]bool{}, HookPassThrough: !p.RepoSupport}
 	info := &BuildInfo{Program: p.Name, Dir: out, Pkg: pkg, ModelErrs: m.Errs, PluginLog: filepath.Join(out, "plugin.log"), Generated: gen}
 	for _, r := range m.Roots {
 		info.Roots = append(info.Roots, r.ID)
@@ -255,6 +261,10 @@ func buildProgramWithStructs(p *Program, pluginBin, out string, kl, km int, stru
 	}
 	info.Harnesses = g.hs
 	info.KL, info.KM = kl, km
+	if p.RepoSupport {
+		// the repository's own test hooks are user code (string-theory code; CopyToBoolSpecial indexes a shorter existing list): summarised (S4)
+		info.Summarize = "^(CopyTo|CopyFrom)(StringCustom|BoolSpecial)$"
+	}
 	imports := []string{`"context"`, `"time"`, `"strconv"`, `"github.com/hashicorp/terraform-plugin-framework/attr"`, `"github.com/hashicorp/terraform-plugin-framework/diag"`,
 		`"github.com/hashicorp/terraform-plugin-framework/types"`, `"github.com/hashicorp/terraform-plugin-framework/tfsdk"`, `"` + modName + `/vrt"`}
 	writeFile(filepath.Join(out, pkg, "zz_spec.go"), []byte(g.file(pkg, imports)))
